@@ -908,6 +908,14 @@ class TaskGroup(abc.TaskGroup):
         )
         self.cancel_scope._tasks.add(task)
         self._tasks.add(task)
+
+        # If the scope has already been cancelled but is no longer delivering
+        # cancellations (all previous tasks were shielded), restart the delivery
+        if self.cancel_scope._cancel_called:
+            if self.cancel_scope._cancel_handle is None:
+                self.cancel_scope._deliver_cancellation(self.cancel_scope)
+        elif not self.cancel_scope._shield:
+            self.cancel_scope._restart_cancellation_in_parent()
         if sys.version_info >= (3, 14) and self.cancel_scope._host_task is not None:
             asyncio.future_add_to_awaited_by(task, self.cancel_scope._host_task)
 
@@ -2669,6 +2677,11 @@ class AsyncIOBackend(AsyncBackend):
                 task = cast(asyncio.Task, current_task())
                 _task_states[task] = TaskState(None, scope)
                 scope._tasks.add(task)
+                if scope._cancel_called:
+                    if scope._cancel_handle is None:
+                        scope._deliver_cancellation(scope)
+                elif not scope._shield:
+                    scope._restart_cancellation_in_parent()
             try:
                 return await func(*args)
             except CancelledError as exc:
